@@ -6,8 +6,9 @@ CONSTANTS
   WithHist = FALSE
   MaxG = 1
   GenLen = 0
+  WithWDL = TRUE
   DEV = "none"
-INVARIANTS TypeOK OneReply NoReadAfterGiveUp DeadlineClass NilCloses CtxNotEarly DoneIsClean
-PROPERTIES ReplyLive TimeoutCloses EofCloses ClosedCancels ListenerEnds ReadLive
+INVARIANTS TypeOK FramesWhole OneReply NoReadAfterGiveUp DeadlineClass NilCloses CtxNotEarly DoneIsClean
+PROPERTIES TruncCloses ReplyLive TimeoutCloses EofCloses ClosedCancels ListenerEnds ReadLive
 VIEW ViewNoHist
 CHECK_DEADLOCK FALSE
